@@ -136,6 +136,13 @@ def eval_mask(df, text):
 def rename_fields(rng, inp):
     """rename some fields to names that are not identifiers (the condition then needs backticks)"""
     names = [n for n, _ in inp["schema"]]
+    types_ = [t for _, t in inp["schema"]]
+    if len(names) >= 2 and types_[0] == types_[1] and types_[0] in ("int64", "double") and rng.random() < 0.35:
+        # two field names that pandas' name cleaning maps to ONE identifier: a condition naming the first must be evaluated on
+        # the first (conditions naming both are pandas' own limitation - plain DataFrame.query gets them wrong; with a sibling of
+        # another type even a condition naming one can fail inside pandas - and are not generated: same-typed numeric siblings, one
+        # comparison of the first field with a constant)
+        return ["mag err%", "mag_err%"] + names[2:]
     if rng.random() < 0.3:
         pool = [x for x in FIELD_NAMES_WEIRD if x not in names]
         rng.shuffle(pool)
@@ -196,17 +203,26 @@ def generate(ctx):
             if kind == "query_flat" and (len(set(labels)) != len(labels) or list(labels) != sorted(labels)):
                 kind = "nested"      # query_flat re-packs by label: sorted, distinct labels only (outside this property otherwise)
             fields = list(zip(names, [t for _, t in schema]))
+            names_oracle = list(names)
+            if names[:2] == ["mag err%", "mag_err%"]:
+                fields = [f for f in fields if f[0] != "mag_err%"]
+                names_oracle[1] = "zz_collides"          # the per-row oracle is plain pandas: keep the colliding name out of its table
             quote = rng.choice(["none", "none", "field", "both"])
             inplace = rng.random() < 0.3
+            colliding = names[:2] == ["mag err%", "mag_err%"]
+            if colliding:
+                kind = "nested"
             if kind in ("nested", "query_flat"):
                 e = gen_cond(rng, fields)
+                if colliding:
+                    e = (rng.choice(["<", ">", ">=", "!=", "<="]), ("field", "mag err%"), ("const", rng.choice([0, 1, 2, 3, 7, 2.5])))
                 if e is None:
                     continue
                 text_plain = render(e, plain_ref)
                 text = render(e, nested_ref(nest, quote)) if kind == "nested" else text_plain
                 # oracle: one row at a time
                 def oracle():
-                    return [eval_mask(row_table(schema, names, r), text_plain) for r in rows]
+                    return [eval_mask(row_table(schema, names_oracle, r), text_plain) for r in rows]
                 masks = attempt(oracle)
 
                 def run():
